@@ -336,10 +336,15 @@ GuardOk(s, q) ==
     THEN r.bet /\ r.type \in {"LIMIT", "LIMIT_ON_CLOSE"} /\ r.price # q.price /\ r.status = "EXECUTABLE"
     ELSE TRUE
 
+\* a placement request for an order that already exists concerns that order's own trade
+NormReq(s, q) == IF q.kind = "PLACE" /\ q.r # "NOORDER" /\ Has(s.ord, q.o)
+                 THEN [q EXCEPT !.t = s.ord[q.o].trade, !.rck = s.ord[q.o].rck] ELSE q
+
 \* what the request must answer, as far as this module determines it:
 \*   "ERROR"  guard fails;  "REFUSE" a modelled control refuses;  "ANY" left to the
 \*   exposure / validation / transaction-count controls (Exposure.tla, Ladder.tla, TxnCount.tla)
-Expected(s, q) ==
+Expected(s, q0) ==
+    LET q == NormReq(s, q0) IN
     IF q.r = "NOORDER" THEN "NOORDER"
     ELSE IF q.kind = "PLACE"
     THEN IF Has(s.ord, q.o) /\ s.ord[q.o].inbl
@@ -355,7 +360,7 @@ Expected(s, q) ==
     ELSE IF ~GuardOk(s, q) THEN "ERRORorREFUSE"
     ELSE "ANY"
 
-ReqOne(s, q) ==
+ReqOneN(s, q) ==
     IF q.r = "NOORDER" THEN s
     ELSE IF q.kind = "PLACE"
     THEN LET s00 == EnsureOrder(s, q)
@@ -383,6 +388,8 @@ ReqOne(s, q) ==
     ELSE IF q.kind = "UPDATE"
     THEN SetStatus([s EXCEPT !.ord[q.o].pers = q.pers], q.o, "UPDATING")
     ELSE SetStatus([s EXCEPT !.ord[q.o].newp = q.price], q.o, "REPLACING")
+
+ReqOne(s, q) == ReqOneN(s, NormReq(s, q))
 
 RECURSIVE FoldReqs(_, _)
 FoldReqs(s, qs) == IF qs = <<>> THEN s ELSE FoldReqs(ReqOne(s, Head(qs)), Tail(qs))
